@@ -15,7 +15,7 @@ MANIFEST = dict(
 OPS = ["tslice", "fslice", "stokes_get", "to_intensity", "to_linear", "to_circular", "to_stokes", "like", "compute",
        "to_dask", "contains", "channel_freqs", "concat", "snippet_i", "snippet_f", "snippet_bad", "time_shift",
        "time_shift_crop", "time_shift_arr", "freq_shift", "fast_len", "coh", "coh_chirp", "chirp", "incoh", "stft",
-       "istft", "r2c", "ufunc", "ufunc_q", "asarray", "transform", "concat_bad", "pickle", "str"]
+       "istft", "r2c", "ufunc", "ufunc_q", "asarray", "transform", "concat_bad", "pickle", "str", "time_shift_tiny", "snippet_q"]
 FUNCS = {"tslice": ["core:Signal.__getitem__", "core:Signal._time_slice", "core:Signal.like"],
          "istft": ["contrib.misc:istft"], "stft": ["contrib.misc:stft"], "r2c": ["utils:real_to_complex"],
          "time_shift": ["transforms.transforms:time_shift"], "time_shift_crop": ["transforms.transforms:time_shift"],
@@ -24,7 +24,8 @@ FUNCS = {"tslice": ["core:Signal.__getitem__", "core:Signal._time_slice", "core:
          "incoh": ["transforms.dedispersion:incoherent_dedispersion"], "concat": ["transforms.transforms:concatenate"],
          "to_linear": ["core:DualPolarizationSignal.to_linear"], "to_circular": ["core:DualPolarizationSignal.to_circular"],
          "to_stokes": ["core:DualPolarizationSignal.to_stokes"], "to_intensity": ["core:BasebandSignal.to_intensity"],
-         "snippet_i": ["transforms.transforms:snippet"], "snippet_f": ["transforms.transforms:snippet", "transforms.transforms:time_shift"],
+         "snippet_i": ["transforms.transforms:snippet"], "time_shift_tiny": ["transforms.transforms:time_shift"],
+         "snippet_q": ["transforms.transforms:snippet", "transforms.transforms:time_shift"], "snippet_f": ["transforms.transforms:snippet", "transforms.transforms:time_shift"],
          "ufunc": ["core:Signal.__array_ufunc__"], "fast_len": ["transforms.transforms:fast_len"]}
 
 
@@ -200,6 +201,14 @@ class Prop(PropBase):
         if call == "transform":
             f = pb.signal_transform(lambda x, k=1.0: x * k)
             return [z], lambda: f(z, k=3.0)
+        if call == "time_shift_tiny":
+            sh = rng.choice([1e-12, -3e-15, (0.3 - 0.2 - 0.1)])
+            if z.ndim > 1 and rng.random() < 0.5:
+                sh = np.full(z.sample_shape, sh)
+                sh.flat[0] = 0.0
+            return [z], lambda: pb.time_shift(z, sh, crop=rng.random() < 0.5)
+        if call == "snippet_q":
+            return [z], lambda: pb.snippet(z, (7 * 1e-6 + 1e-21) * u.s, 8)
         if call == "str":
             return [z], lambda: (str(z), repr(z))
         if call == "pickle":
